@@ -221,7 +221,7 @@ class ObjScenario:
         self.boot = boot
         n = len(self.programs)
         shared = self.make(self.dir) if self.mode == 'shared' else None
-        self.handles = {i + 1: (shared or self.make(self.dir))
+        self.handles = {i + 1: (shared if shared is not None else self.make(self.dir))
                         for i in range(n)}
         self.objects = list({id(o): o for o in self.handles.values()}.values())
 
